@@ -97,7 +97,12 @@ fn glyph_class_list_member(parser: &mut Parser, recovery: TokenSet) -> bool {
     // an escaped glyph name
     // an escaped CID
 
-    let looks_like_range = parser.matches(1, Kind::Hyphen)
+    // only something that can start a glyph name can start a range: otherwise
+    // (e.g. `[a]-b`) we would report errors without advancing, forever.
+    let at_name_like = parser.matches(0, TokenSet::IDENT_LIKE)
+        || parser.matches(0, Kind::NullKw)
+        || parser.matches(0, Kind::Cid);
+    let looks_like_range = (at_name_like && parser.matches(1, Kind::Hyphen))
         || (parser.matches(0, Kind::Backslash) && parser.matches(2, Kind::Hyphen));
     if looks_like_range {
         parser.in_node(AstKind::GlyphRange, |parser| {
@@ -232,6 +237,16 @@ mod tests {
         assert_eq!(parser.nth_raw(0), b"12");
         assert!(eat_glyph_name_like(&mut parser));
         assert!(!eat_glyph_name_like(&mut parser));
+    }
+
+    #[test]
+    fn hyphen_after_non_name_terminates() {
+        // used to loop forever in glyph_class_list_member
+        for fea in ["[b]-c;", "[]-", "[a ; - b]"] {
+            let mut sink = AstSink::new(fea, FileId::CURRENT_FILE, None);
+            let mut parser = Parser::new(fea, &mut sink);
+            eat_glyph_class_list(&mut parser, TokenSet::EMPTY);
+        }
     }
 
     #[test]
